@@ -944,6 +944,10 @@ class Interp:
         if fname == "str" and len(pos) == 1:
             if isinstance(pos[0], Const) and isinstance(pos[0].v, str):
                 return pos[0]
+            if isinstance(pos[0], Const) and type(pos[0].v) is int:
+                return Const(str(pos[0].v))
+            if isinstance(pos[0], IntIv) and pos[0].lo == pos[0].hi and getattr(pos[0], "sym", None) is None:
+                return Const(str(pos[0].lo))  # str() of a known integer is that numeral
             return StrOf(pos[0])
         if fname == "rgb_to_hls" and len(pos) == 3:
             ivs = [as_iv(x) for x in pos]
